@@ -1184,15 +1184,23 @@ package http2
 //@ ensures copy: st2.tableSize == st.tableSize && st2.enablePush == st.enablePush && st2.maxStreams == st.maxStreams &&
 //@ |   st2.windowSize == st.windowSize && st2.frameSize == st.frameSize && st2.headerSize == st.headerSize && st2.hasWindowSize == st.hasWindowSize && st2.ack == st.ack
 
+//@ macro svalid(d) = forall(k, 0, len(d)/6, sgood(d, k))
+
 //@ func (*serverConn).handleSettings
 //@ props C18
-//@ requires args: scOK(sc) && st != nil
+//@ requires args: scOK(sc) && recv != nil
 //@ requires enc: hpackOK(sc.enc)
 //@ opt noframe=true
-//@ modifies sc.clientS, capacity(sc.clientS.rawSettings), sc.enc.maxTableSizeSettings, sc.enc.maxTableSize, sc.enc.pendingSizeUpdate, sc.enc.dynamic, contents(sc.enc.dynamic), family(HeaderField)
-//@ # the peer's values are recorded, the encoder's table is cut down to the peer's HEADER_TABLE_SIZE, and one ACK is queued
-//@ ensures recorded: sc.clientS.frameSize == old(st.frameSize) && sc.clientS.maxStreams == old(st.maxStreams) && sc.clientS.windowSize == old(st.windowSize) && sc.clientS.tableSize == old(st.tableSize)
-//@ ensures table: sc.enc.maxTableSize == old(st.tableSize) && sc.enc.maxTableSizeSettings == old(st.tableSize)
+//@ modifies sc.clientS.tableSize, sc.clientS.enablePush, sc.clientS.maxStreams, sc.clientS.windowSize, sc.clientS.frameSize, sc.clientS.headerSize, sc.clientS.hasWindowSize,
+//@ |   sc.enc.maxTableSizeSettings, sc.enc.maxTableSize, sc.enc.pendingSizeUpdate, sc.enc.dynamic, contents(sc.enc.dynamic), family(HeaderField)
+//@ # RFC 7540 6.5.3: each parameter the frame names takes its (last) value, every parameter it does not name keeps the value it
+//@ # had; the encoder's table follows the peer's HEADER_TABLE_SIZE; one ACK is queued
+//@ let d = recv.payload
+//@ ensures tbl: svalid(d) ==> slast(d, len(d)/6, 1, sc.clientS.tableSize, old(sc.clientS.tableSize))
+//@ ensures strm: svalid(d) ==> slast(d, len(d)/6, 3, sc.clientS.maxStreams, old(sc.clientS.maxStreams))
+//@ ensures win: svalid(d) ==> slast(d, len(d)/6, 4, sc.clientS.windowSize, old(sc.clientS.windowSize))
+//@ ensures frm: svalid(d) ==> slast(d, len(d)/6, 5, sc.clientS.frameSize, old(sc.clientS.frameSize))
+//@ ensures table: sc.enc.maxTableSize == sc.clientS.tableSize && sc.enc.maxTableSizeSettings == sc.clientS.tableSize
 //@ ensures ack: called((*serverConn).write) == 1
 //@ # the table's backing array is the one it had or a new one: tables never come to share storage
 //@ ensures place: dynplace(sc.enc)
@@ -1673,13 +1681,16 @@ package http2
 
 //@ func (*Conn).handleSettings
 //@ props C07 C18
-//@ requires args: c != nil && st != nil
+//@ requires args: c != nil && st != nil && recv != nil
 //@ opt noframe=true
-//@ modifies c.serverS, capacity(c.serverS.rawSettings), c.maxStreams, c.maxFrameSize, c.encTableSize, c.streamWindow, family(pendingBody)
-//@ # the limits the client works with from now on are the ones in the frame just received
-//@ ensures frame: c.maxFrameSize == old(st.frameSize)
-//@ ensures streams: c.maxStreams == old(st.maxStreams)
-//@ ensures table: c.encTableSize == old(st.tableSize)
+//@ modifies c.serverS.tableSize, c.serverS.enablePush, c.serverS.maxStreams, c.serverS.windowSize, c.serverS.frameSize, c.serverS.headerSize, c.serverS.hasWindowSize,
+//@ |   c.maxStreams, c.maxFrameSize, c.encTableSize, c.streamWindow, family(pendingBody)
+//@ # RFC 7540 6.5.3: the limits the client works with from now on are those the frame just received names, and for the
+//@ # parameters it does not name the ones in force before
+//@ let d = recv.payload
+//@ ensures frame: svalid(d) ==> slast(d, len(d)/6, 5, c.maxFrameSize, old(c.serverS.frameSize))
+//@ ensures streams: svalid(d) ==> slast(d, len(d)/6, 3, c.maxStreams, old(c.serverS.maxStreams))
+//@ ensures table: svalid(d) ==> slast(d, len(d)/6, 1, c.encTableSize, old(c.serverS.tableSize))
 //@ ensures window: old(st.hasWindowSize) ==> c.streamWindow == old(st.windowSize) % 2147483648 || c.streamWindow == old(st.windowSize) - 4294967296
 //@ # and it is acknowledged with exactly one SETTINGS frame carrying ACK
 //@ assert@call:(*Conn).writeOut#1 ack: arg1 != nil && typeis(arg1.fr, *Settings) && as(arg1.fr, *Settings).ack
